@@ -20,7 +20,7 @@ def module_prologues():
     glue = open(os.path.join(ROOT, 'spec', 'glue.rs'), encoding='utf-8').read()
     pro = {'': glue}
     common = ('#[allow(unused_imports)] use crate::*;\n#[allow(unused_imports)] use crate::prelude::*;\n'
-              '#[allow(unused_imports)] use crate::shim::*;\n#[allow(unused_imports)] use vstd::prelude::*;\n'
+              '#[allow(unused_imports)] use crate::shim::*;\n#[allow(unused_imports)] use crate::vs::*;\n#[allow(unused_imports)] use vstd::prelude::*;\n'
               '#[allow(unused_imports)] use vstd::arithmetic::power::*;\n#[allow(unused_imports)] use vstd::arithmetic::mul::*;\n'
               '#[allow(unused_imports)] use vstd::arithmetic::div_mod::*;\n'
               '#[allow(unused_imports)] use vstd::std_specs::cmp::*;\n#[allow(unused_imports)] use vstd::std_specs::convert::*;\n'
@@ -36,7 +36,8 @@ def module_prologues():
         if m:
             extra = os.path.join(ROOT, 'spec', 'mod_%s.rs' % m.replace('::', '_'))
             imp = ''.join('#[allow(unused_imports)] use crate::%s::*;\n' % x for x in ('arithmetic', 'rounding') if x != m)
-            pro[m] = common + imp + (open(extra).read() if os.path.exists(extra) else '')
+            bc = 'broadcast use {crate::ax::axiom_ref_into_self, crate::ax::axiom_ref_into_self_obeys, crate::shim::axiom_spec_magnitude, crate::ax::val_algebra};\n'
+            pro[m] = common + imp + bc + (open(extra).read() if os.path.exists(extra) else '')
     return pro
 
 
@@ -44,7 +45,8 @@ def generate(units=None, repo=None):
     entries = all_entries()
     em = gen.build(entries, units, repo=repo)
     prelude = open(os.path.join(ROOT, 'spec', 'prelude.rs'), encoding='utf-8').read()
-    text, line_map = gen.render(em, prelude, gen_shim(), module_prologues())
+    vs = open(os.path.join(ROOT, 'spec', 'vs.rs'), encoding='utf-8').read()
+    text, line_map = gen.render(em, prelude, gen_shim() + '\n' + vs, module_prologues())
     return text, line_map, em, entries
 
 
